@@ -7,7 +7,12 @@ Oracle (property statement + reference/expressions.md "The environment symbol"):
     exit status != 0, the output names the variable and contains no value (nor the distinctive token embedded in a value) of any variable;
     `--no-strict` -> builds, the expression is NULL (json null);
   * `let env = ...;` does not build; `{env = 1}.env`, `t.env`, `t.inner.env.X` are the tuple's fields even when the environment has such a variable.
-Bounded: the generated environments named in `bound`."""
+Bounded: the generated environments named in `bound`.
+
+Stand-ins: env_random (names / values / near misses, four program shapes, one directory, files named on the command line),
+env_positions (WHERE the read happens: 39 program positions + 11 ways of reaching the read through imports) and env_routes (HOW the file is
+reached: the CLI routes of `ucg build` and `ucg test` - files relative / absolute, directories, -r with files 0..2 levels down, no input,
+several inputs in every order) - the set / unset+strict / unset+--no-strict behaviour must be the same everywhere (see the second half of this file)."""
 import json
 import os
 import random
@@ -260,4 +265,522 @@ def standin_env_random(tier, seed):
     return dict(name='env_random', bound=bound, cases=n, status='ok')
 
 
-STANDINS = [standin_env_random]
+
+
+# =====================================================================================================================
+# Strictness plumbing.  The clause "a variable that is not set is a build error naming that variable in strict mode and evaluates to NULL in
+# non-strict mode" (and "env.NAME is the variable's value") quantifies over every place a program can read the variable from and every way
+# the `ucg` command line can reach the file.  Two more dimensions are enumerated here:
+#   (a) the program position of the read (POSITIONS below) - in the file itself or in a file it imports (IMPORTS below),
+#   (b) the CLI route to the file (routes() below), for `ucg build` and `ucg test`; `--no-strict` is a flag of `ucg` itself (see `ucg help`:
+#       "ucg [FLAGS] [SUBCOMMAND]"), it goes in front of the sub-command and so applies to build and test alike.
+# Oracle per reading file (the reference: expressions.md "The environment symbol", "Filter expressions" - false or NULL drops the item -,
+# "Conditionals", "Format Expressions", "Modules"; converters.md - NULL is json null):
+#   variable set                 -> the artifact holds the value expected for the position, in both modes;
+#   variable unset, strict       -> no artifact for that file, exit status != 0, the output names the variable;
+#   variable unset, --no-strict  -> exit status 0 and the artifact holds what the position yields for NULL (ANY: how a NULL renders inside a
+#                                   format string is not specified, only "the file builds" is demanded there);
+#   no value of any variable (a secret that no program reads is always planted) shows up in what ucg prints.
+ANY = '<any value>'
+WORKERS = 4
+
+
+def _positions():
+    """The targets of map / filter / reduce over a tuple or a string are handed in as a function argument: the type checker of the pinned HEAD refuses
+    such a target when it knows its shape ("map target must be a list, got tuple") - a defect outside this property, reported separately.
+    (id, code binding `r` - @S@ is the selector `env.NAME` / `env."NAME"`, @F@ its field part -, r when the variable holds v, r when it is unset
+    and the build is not strict, selector must be bare)"""
+    I = lambda v: v                                               # noqa: E731
+    return [
+        ('let', 'let r = @S@;', I, None, False),
+        ('parenthesised', 'let r = (@S@);', I, None, False),
+        ('function body', 'let f = func(a) => @S@;\nlet r = f(1);', I, None, False),
+        ('function called by a function', 'let f = func(a) => @S@;\nlet g = func(b) => f(b);\nlet r = g(2);', I, None, False),
+        ('callback nested in a function', 'let f = func(a) => map(func(b) => @S@, [a]);\nlet r = f(1);', lambda v: [v], [None], False),
+        ('module body', 'let m = module {} => (q) { let q = @S@; };\nlet r = m{};', I, None, False),
+        ('module out expression', 'let m = module {} => (@S@) { let q = 1; };\nlet r = m{};', I, None, False),
+        ('module parameter default', 'let m = module {a = @S@} => (q) { let q = mod.a; };\nlet r = m{};', I, None, False),
+        ('module argument', 'let m = module {a = ""} => (q) { let q = mod.a; };\nlet r = m{a = @S@};', I, None, False),
+        ('function in a module body', 'let m = module {} => (q) { let f = func(a) => @S@; let q = f(1); };\nlet r = m{};', I, None, False),
+        ('module in a module body', 'let m = module {} => (q) { let inner = module {} => (z) { let z = @S@; }; let q = inner{}; };\nlet r = m{};', I, None, False),
+        ('module instantiated in a function', 'let m = module {} => (q) { let q = @S@; };\nlet f = func(a) => m{};\nlet r = f(1);', I, None, False),
+        ('map callback (list)', 'let r = map(func(a) => @S@, [1, 2]);', lambda v: [v, v], [None, None], False),
+        ('map callback (tuple)', 'let f = func(t) => map(func(k, x) => [k, @S@], t);\nlet r = f({a = 1, b = 2});', lambda v: {'a': v, 'b': v}, {'a': None, 'b': None}, False),
+        ('map callback (string)', 'let f = func(s) => map(func(c) => select (@S@ == NULL, "?") => {true = "N", false = @S@}, s);\nlet r = f("ab");', lambda v: v + v, 'NN', False),
+        ('filter predicate (list)', 'let r = filter(func(a) => @S@, [1, 2]);', lambda v: [1, 2], [], False),
+        ('filter predicate (tuple)', 'let f = func(t) => filter(func(k, x) => @S@, t);\nlet r = f({a = 1, b = 2});', lambda v: {'a': 1, 'b': 2}, {}, False),
+        ('filter predicate (string)', 'let f = func(s) => filter(func(c) => @S@, s);\nlet r = f("ab");', lambda v: 'ab', '', False),
+        ('filter predicate (named function)', 'let keep = func(h) => h != @S@;\nlet r = filter(keep, ["x", "y"]);', lambda v: ['x', 'y'], ['x', 'y'], False),
+        ('reduce callback (list)', 'let r = reduce(func(acc, a) => acc + [@S@], [], [1, 2]);', lambda v: [v, v], [None, None], False),
+        ('reduce callback (tuple)', 'let f = func(t) => reduce(func(acc, k, x) => acc + [@S@], [], t);\nlet r = f({a = 1});', lambda v: [v], [None], False),
+        ('reduce callback (string)', 'let f = func(s) => reduce(func(acc, c) => @S@, "", s);\nlet r = f("ab");', I, None, False),
+        ('reduce accumulator', 'let r = reduce(func(acc, a) => acc, @S@, [1]);', I, None, False),
+        ('select arm', 'let r = select ("a", "d") => {a = @S@, b = "x"};', I, None, False),
+        ('select default', 'let r = select ("zz", @S@) => {a = "x"};', I, None, False),
+        ('select condition', 'let r = select (@S@ == NULL, "d") => {true = "unset", false = "set"};', lambda v: 'set', 'unset', False),
+        ('format template expression', 'let r = "@{@S@}" % {};', I, ANY, True),
+        ('format template item', 'let r = "@{item.a}" % {a = @S@};', I, ANY, False),
+        ('format argument', 'let r = "@" % (@S@);', I, ANY, False),
+        ('format argument list', 'let r = "@-@" % (1, @S@);', lambda v: '1-' + v, ANY, False),
+        ('copy expression field', 'let t = {a = 1};\nlet r = t{b = @S@}.b;', I, None, False),
+        ('copy expression override', 'let t = {a = "", c = 1};\nlet r = t{a = @S@}.a;', I, None, False),
+        ('list literal', 'let r = [1, @S@];', lambda v: [1, v], [1, None], False),
+        ('tuple literal', 'let r = {a = {b = @S@}};', lambda v: {'a': {'b': v}}, {'a': {'b': None}}, False),
+        ('selector on a tuple literal', 'let r = {a = @S@}.a;', I, None, False),
+        ('comparison', 'let r = @S@ == NULL;', lambda v: False, True, False),
+        ('negated comparison', 'let r = not (@S@ == NULL);', lambda v: True, False, False),
+        ('env bound to a name', 'let e = env;\nlet r = e.@F@;', I, None, False),
+        ('let, then used twice', 'let x = @S@;\nlet r = [x, x == NULL];', lambda v: [v, False], [None, True], False),
+    ]
+
+
+def _imports():
+    """(id, fn(base name, code of an importable file that binds r, selector) -> (importer code binding r, {path relative to the importer: source}),
+    environment variables ucg itself reads: @ROOT@ is the directory the command is run below)"""
+    def simple(main):
+        return lambda b, code, S: (main.replace('@L@', b + '_lib.ucg'), {b + '_lib.ucg': code + '\n'})
+    return [
+        ('import bound by let', simple('let l = import "@L@";\nlet r = l.r;'), {}),
+        ('import expression', simple('let r = (import "@L@").r;'), {}),
+        ('import in a function body', simple('let f = func(a) => (import "@L@").r;\nlet r = f(1);'), {}),
+        ('import in a module body', simple('let m = module {} => (q) { let l = import "@L@"; let q = l.r; };\nlet r = m{};'), {}),
+        ('import in a map callback', simple('let l0 = map(func(a) => (import "@L@").r, [1]);\nlet r = l0.0;'), {}),
+        ('the same file imported twice', simple('let l1 = import "@L@";\nlet l2 = import "@L@";\nlet r = select (l1.r == l2.r, NULL) => {true = l2.r};'), {}),
+        ('import chain of depth 2', lambda b, code, S: ('let l = import "%s_lib.ucg";\nlet r = l.r;' % b,
+                                                         {b + '_lib.ucg': 'let l2 = import "%s_lib2.ucg";\nlet r = l2.r;\n' % b, b + '_lib2.ucg': code + '\n'}), {}),
+        ('import from a sub-directory', lambda b, code, S: ('let l = import "%s_libs/lib.ucg";\nlet r = l.r;' % b, {b + '_libs/lib.ucg': code + '\n'}), {}),
+        ('import chain down and up again', lambda b, code, S: ('let l = import "%s_libs/one.ucg";\nlet r = l.r;' % b,
+                                                                  {b + '_libs/one.ucg': 'let l2 = (import "../%s_two.ucg");\nlet r = l2.r;\n' % b, b + '_two.ucg': code + '\n'}), {}),
+        ('function of an imported file', lambda b, code, S: ('let l = import "%s_lib.ucg";\nlet ff = l.f;\nlet r = ff(1);' % b, {b + '_lib.ucg': 'let f = func(a) => %s;\n' % S}), {}),
+        ('module of an imported file', lambda b, code, S: ('let l = import "%s_lib.ucg";\nlet mm = l.m;\nlet r = mm{};' % b, {b + '_lib.ucg': 'let m = module {} => (q) { let q = %s; };\n' % S}), {}),
+    ]
+
+
+def _new_name(rnd, taken, forbidden, bare, rsv):
+    while True:
+        first = rnd.choice(string.ascii_letters) if bare or rnd.random() < 0.8 else rnd.choice('_0123456789')
+        nm = first + ''.join(rnd.choice(NAMECH) for _ in range(rnd.choice([5, 6, 8, 11, 17]))) + rnd.choice(string.digits + '_')
+        if nm.upper().startswith(AVOID) or nm in rsv or nm in forbidden:
+            continue
+        if any(nm in t or t in nm for t in taken):
+            continue
+        taken.append(nm)
+        return nm
+
+
+def _new_val(rnd, plain=False):
+    tk = token(rnd)
+    if plain:
+        parts = [rnd.choice(['a', 'Z', '0', ' ', '-', '/', ':', 'é', 'ß', '日本', '_', '.', '=']) for _ in range(rnd.choice([0, 1, 3, 6]))]
+    else:
+        parts = [rnd.choice(PIECES) for _ in range(rnd.choice([0, 0, 1, 2, 4, 8]))]
+    parts.insert(rnd.randint(0, len(parts)), tk)
+    return ''.join(parts), tk
+
+
+def _ucg_lit(v):
+    """UCG literal of an expected value (only for values made by _new_val(plain=True))"""
+    if v is None:
+        return 'NULL'
+    if v is True or v is False:
+        return 'true' if v else 'false'
+    if isinstance(v, int):
+        return str(v)
+    if isinstance(v, str):
+        return '"%s"' % v.replace('\\', '\\\\').replace('"', '\\"')
+    if isinstance(v, list):
+        return '[%s]' % ', '.join(_ucg_lit(x) for x in v)
+    return '{%s}' % ', '.join('%s = %s' % (k, _ucg_lit(x)) for k, x in v.items())
+
+
+class Reader(object):
+    """One file that reads one variable at one position (possibly through imports), placed somewhere in the tree."""
+
+    def __init__(self, rnd, base, pos, imp, taken, forbidden, rsv, plain=False, test=None):
+        pid, tpl, fset, enull, bare = pos
+        self.var = _new_name(rnd, taken, forbidden, bare, rsv)
+        self.val, self.tok = _new_val(rnd, plain)
+        field = self.var if (self.var[0] in string.ascii_letters and (bare or rnd.random() < 0.7)) else '"%s"' % self.var
+        self.sel = 'env.' + field
+        code = tpl.replace('@S@', self.sel).replace('@F@', field)
+        self.exp_set, self.exp_null = fset(self.val), enull
+        self.where = pid
+        self.ucgenv = {}
+        libs = {}
+        if imp is not None:
+            iid, fn, uenv = imp
+            if iid in ('function of an imported file', 'module of an imported file'):
+                self.exp_set, self.exp_null = self.val, None
+                self.where = iid
+            else:
+                self.where = '%s; the imported file reads it at: %s' % (iid, pid)
+            code, libs = fn(base, code, self.sel)
+            self.ucgenv = dict(uenv)
+        self.base = base
+        self.dir = ''
+        self.test = test                    # None: a file for `ucg build`; 'set' / 'unset': a *_test.ucg file whose assertion expects that state
+        if test is None:
+            self.name = base + '.ucg'
+            main = code + '\nout json {v = r};\n'
+        else:
+            self.name = base + '_test.ucg'
+            main = code + '\nassert {ok = r == %s, desc = "the value read"};\n' % _ucg_lit(self.exp_set if test == 'set' else self.exp_null)
+        self.main = main
+        self.libs = libs
+
+    def rel(self):
+        return os.path.join(self.dir, self.name)
+
+    def artifact(self):
+        return os.path.join(self.dir, self.base + '.json')
+
+    def files(self):
+        res = {self.rel(): self.main}
+        for k, v in self.libs.items():
+            res[k[1:] if k.startswith('/') else os.path.join(self.dir, k)] = v
+        return res
+
+
+def _under(d, top):
+    return d == top or d.startswith(top + '/')
+
+
+def routes(cmd, readers, rnd, which):
+    """The CLI routes to the files of a tree (all readers live in or below proj/): -> [(id, cwd, args after the sub-command, reached readers)]"""
+    proj = [r for r in readers]
+    by_dir = lambda top, rec: [r for r in proj if (_under(r.dir, top) if rec else r.dir == top)]     # noqa: E731
+    order = list(proj)
+    rnd.shuffle(order)
+    subs = sorted(set(r.dir for r in proj if r.dir != 'proj'))
+    sub = rnd.choice(subs) if subs else 'proj'
+    deep = max(subs, key=lambda d: d.count('/')) if subs else 'proj'
+    one = rnd.choice(proj)
+    others = [d for d in subs if not _under(d, deep) and not _under(deep, d)] or ['proj']
+    other = rnd.choice(others)
+    res = {
+        'recursive, directory named': ('.', ['-r', 'proj'], by_dir('proj', True)),
+        'recursive, no input (current directory)': ('proj', ['-r'], by_dir('proj', True)),
+        'recursive, `.`': ('proj', ['-r', '.'], by_dir('proj', True)),
+        'recursive, absolute directory': ('.', ['-r', '@ROOT@/proj'], by_dir('proj', True)),
+        'recursive, sub-directory named': ('.', ['-r', sub], by_dir(sub, True)),
+        'recursive, sub-directory relative to the current directory': ('proj', ['-r', os.path.relpath(sub, 'proj')], by_dir(sub, True)),
+        'directory named': ('.', ['proj'], by_dir('proj', False)),
+        'directory named with a trailing slash': ('.', ['proj/'], by_dir('proj', False)),
+        'no input (current directory)': ('proj', [], by_dir('proj', False)),
+        'sub-directory named': ('.', [sub], by_dir(sub, False)),
+        'every file named, relative': ('.', [r.rel() for r in order], order),
+        'every file named, absolute': ('.', ['@ROOT@/' + r.rel() for r in order], order),
+        'every file named, relative and absolute mixed': ('.', [('@ROOT@/' if i % 2 else '') + r.rel() for i, r in enumerate(order)], order),
+        'every file named, relative to a sub-directory': (deep, [os.path.relpath(r.rel(), deep) for r in order], order),
+        'every file named, with ./ and ../ segments': ('.', [('./' + r.rel()) if i % 2 else os.path.join(r.dir, '..', os.path.basename(r.dir), r.name) for i, r in enumerate(order)], order),
+        'one file named': ('.', [one.rel()], [one]),
+        'one file named, absolute': ('.', ['@ROOT@/' + one.rel()], [one]),
+        'recursive, a directory, a file and another directory': ('.', ['-r', deep, one.rel(), other],
+                                                                 [r for r in proj if _under(r.dir, deep) or r is one or _under(r.dir, other)]),
+        'a file, then a directory': ('.', [one.rel(), sub], [r for r in proj if r is one or r.dir == sub]),
+    }
+    n = len(order)
+    for k in range(1, min(n, 4)):
+        rot = order[k:] + order[:k]
+        res['every file named, rotated by %d' % k] = ('.', [r.rel() for r in rot], rot)
+    return [(rid, cwd, [cmd] + args, reached) for rid, (cwd, args, reached) in res.items() if which is None or rid in which]
+
+
+def _job(readers, cwd, args, flags, setvars, secret):
+    """An invocation: the tree of all `readers`, the command, the environment (exactly: the variables in `setvars` + a secret + what ucg itself reads)."""
+    files, env = {}, {}
+    for r in readers:
+        files.update(r.files())
+        env.update(r.ucgenv)
+        if r.var in setvars:
+            env[r.var] = r.val
+        elif r.near:
+            env[r.near[0]] = r.near[1]
+    env[secret[0]] = secret[1]
+    return dict(files=files, cwd=cwd, flags=list(flags), args=list(args), env=env, strict=not flags)
+
+
+def _run_job(base, idx, job):
+    root = os.path.join(base, 'j%04d' % idx)
+    for rel, src in job['files'].items():
+        p = os.path.join(root, rel)
+        os.makedirs(os.path.dirname(p), exist_ok=True)
+        with open(p, 'w', encoding='utf-8') as fh:
+            fh.write(src)
+    os.makedirs(os.path.join(root, job['cwd']), exist_ok=True)
+    args = [a.replace('@ROOT@', root) for a in job['flags'] + job['args']]
+    env = dict((k, v.replace('@ROOT@', root)) for k, v in job['env'].items())
+    try:
+        rc, so, se = R.run_ucg(args, os.path.join(root, job['cwd']), env=env, timeout=60)
+    except Exception as e:          # a hang is a finding as well
+        rc, so, se = -999, '', 'the command did not finish: %r' % (e,)
+    arts = {}
+    for d, _, fs in os.walk(root):
+        for f in fs:
+            if not f.endswith('.ucg'):
+                p = os.path.join(d, f)
+                try:
+                    arts[os.path.relpath(p, root)] = json.load(open(p, encoding='utf-8'))
+                except Exception:
+                    arts[os.path.relpath(p, root)] = 'unparsable: %r' % open(p, 'rb').read()[:200]
+    shutil.rmtree(root, ignore_errors=True)
+    return dict(rc=rc, out=so + se, arts=arts, root=root)
+
+
+def _run_all(base, jobs):
+    R.ucg_binary()
+    if len(jobs) <= 1 or WORKERS <= 1:
+        return [_run_job(base, i, j) for i, j in enumerate(jobs)]
+    from concurrent.futures import ThreadPoolExecutor
+    with ThreadPoolExecutor(max_workers=WORKERS) as ex:
+        return list(ex.map(lambda ij: _run_job(base, ij[0], ij[1]), enumerate(jobs)))
+
+
+def _judge(job, res, reached, setvars, secret, all_readers):
+    """-> None, or (reader, one line, expected, observed)"""
+    rc, out, arts = res['rc'], res['out'], res['arts']
+    mode = 'strict mode (the default)' if job['strict'] else '--no-strict'
+    istest = any(r.test for r in reached)
+    unset = [r for r in reached if r.var not in setvars]
+    for r in reached:
+        if r.test:
+            continue
+        art = arts.get(r.artifact())
+        if r.var in setvars:
+            if art != {'v': r.exp_set}:
+                return (r, '%s: %s is set, %s holds %s' % (mode, r.var, r.artifact(), 'no artifact (the file did not build)' if art is None else repr(art)), {'v': r.exp_set}, art)
+        elif job['strict']:
+            if art is not None:
+                return (r, '%s: %s is not set, yet %s builds: artifact %r' % (mode, r.var, r.rel(), art), 'a build error naming %s, no artifact' % r.var, art)
+        else:
+            if art is None:
+                return (r, '%s: %s is not set and must read as NULL, but %s does not build' % (mode, r.var, r.rel()), {'v': r.exp_null}, 'no artifact')
+            if (r.exp_null == ANY and not (isinstance(art, dict) and 'v' in art)) or (r.exp_null != ANY and art != {'v': r.exp_null}):
+                return (r, '%s: %s is not set and must read as NULL; artifact %r' % (mode, r.var, art), {'v': r.exp_null}, art)
+    if job['strict']:
+        for r in unset:
+            if r.var not in out:
+                return (r, '%s: %s is not set; %s' % (mode, r.var, ('exit status %d and ' % rc if rc == 0 else '') + 'nothing in the output names the variable'),
+                        'exit status != 0 and a diagnostic naming %s' % r.var, 'exit status %d' % rc)
+        if unset and rc == 0:
+            return (unset[0], '%s: %s is not set, the exit status is 0' % (mode, ', '.join(r.var for r in unset)), 'exit status != 0', 'exit status 0')
+    if (not job['strict'] or not unset) and rc != 0:
+        # which reader is it about? the one the output names, else the first unset one
+        named = [r for r in reached if r.var in out] or unset or reached
+        return (named[0], '%s: exit status %d although %s' % (mode, rc, 'an unset variable is NULL when not strict' if unset else 'every variable read is set'), 'exit status 0', 'exit status %d' % rc)
+    for r in list(all_readers):
+        for nm, val, tk in ((r.var, r.val, r.tok),) + (((r.near[0], r.near[1], r.near[2]),) if r.near else ()):
+            if nm in job['env'] and tk in out and not (istest and r.test):
+                return (r, '%s: the output discloses the value of %s' % (mode, nm), 'no value of any variable in the output', '...' + out[max(0, out.find(tk) - 150):out.find(tk) + 40])
+    if secret[2] in out:
+        return (reached[0], '%s: the output discloses the value of %s, which no program reads' % (mode, secret[0]), 'no value of any variable in the output',
+                '...' + out[max(0, out.find(secret[2]) - 150):out.find(secret[2]) + 40])
+    return None
+
+
+def _shq(v):
+    """the value as a /bin/bash word"""
+    if v and all(c.isprintable() for c in v):
+        return "'" + v.replace("'", "'\\''") + "'"
+    return "$'" + ''.join(c if c.isprintable() and c not in "'\\" else ('\\x%02x' % ord(c) if ord(c) < 128 else '\\u%04x' % ord(c)) for c in v) + "'"
+
+
+def _show_cmd(job, root='<root>'):
+    return '`cd %s && env -i %s ucg %s`' % (os.path.normpath(os.path.join(root, job['cwd'])), ' '.join('%s=%s' % (k, _shq(v.replace('@ROOT@', root))) for k, v in job['env'].items()),
+                                            ' '.join(a.replace('@ROOT@', root) for a in job['flags'] + job['args']))
+
+
+def _report(name, bound, n, base, job, res, verdict, route_id, remake, first):
+    """Violation record; first tries to reproduce it with the tree reduced to the one reading file (and what it imports), then to that file and the
+    first file of the command; if neither shows the failure the whole tree is given."""
+    r, line, exp, obs = verdict
+    reduced = False
+    for keep in ([r], [first, r] if first is not r else None):
+        if keep is None:
+            continue
+        sjob, sreached, ssetvars, ssecret = remake(keep)
+        sres = _run_job(base, 9000 + len(keep), sjob)
+        sv = _judge(sjob, sres, sreached, ssetvars, ssecret, sreached)
+        if sv is not None and sv[0] is r:
+            job, res, (r, line, exp, obs), reduced = sjob, sres, sv, True
+            break
+    out = res['out'].replace(res['root'], '<root>')
+    return dict(name=name, bound=bound, cases=n, status='violation',
+                detail=('%s [read at: %s; route: %s] %s' % (line, r.where, route_id, _show_cmd(job)))[:900],
+                input=dict(source=dict((k, v) for k, v in job['files'].items() if reduced or len(job['files']) <= 80 or k in r.files()), failing_file=r.rel(), files_in_the_tree=sorted(job['files']), expected=exp, observed=obs,
+                           output=out[-1500:], how='files written below an empty directory <root>; ' + _show_cmd(job) + '; artifacts are read back with a JSON parser',
+                           read_at=r.where, route=route_id, variable=r.var, set=r.var in job['env'], mode='strict' if job['strict'] else '--no-strict'))
+
+
+def _mk_secret(rnd, taken, forbidden, rsv):
+    nm = _new_name(rnd, taken, forbidden, True, rsv)
+    v, tk = _new_val(rnd)
+    return ('SECRET_' + nm, v, tk)
+
+
+def _near(rnd, r, taken):
+    """a near miss of the unset variable that IS set (other case / one character more), for a third of the readers"""
+    r.near = None
+    if rnd.random() < 0.34:
+        cand = r.var.swapcase() if rnd.random() < 0.5 and r.var.swapcase() != r.var else r.var + rnd.choice('_0x')
+        if not cand.upper().startswith(AVOID) and cand not in taken:
+            v, tk = _new_val(rnd)
+            r.near = (cand, v, tk)
+
+
+def standin_env_positions(tier, seed):
+    """dimension (a): every position / import flavour, each file named on one command line"""
+    rnd = random.Random(seed * 7919 + 18)
+    rsv = reserved()
+    pos, imps = _positions(), _imports()
+    rounds = 1 if tier != 'thorough' else 5
+    per_imp = 1 if tier != 'thorough' else 2
+    bound = ('%d round(s) of one directory with %d files that each read ONE variable of their own (random name, 20%% needing the quoted selector; random Unicode value) at one of %d program positions '
+             '(%s) + %d x %d files that reach the read through imports (%s; the imported file reads at a random position), all named on one `ucg [--no-strict] build` command line; '
+             '2 complementary halves of the variables set x strict / --no-strict; a third of the unset variables have a set near miss; one secret variable nobody reads'
+             % (rounds, len(pos), len(pos), ', '.join(p[0] for p in pos), len(imps), per_imp, ', '.join(i[0] for i in imps)))
+    base = tempfile.mkdtemp(prefix='verif_c18p_')
+    n = 0
+    try:
+        for rd in range(rounds):
+            taken = []
+            readers = []
+            for i, p in enumerate(pos):
+                readers.append(Reader(rnd, 'p%02d' % i, p, None, taken, base, rsv))
+            k = 0
+            for imp in imps:
+                for _ in range(per_imp):
+                    readers.append(Reader(rnd, 'i%02d' % k, rnd.choice(pos), imp, taken, base, rsv))
+                    k += 1
+            # two files that import ONE shared file, on the same command line
+            sh = Reader(rnd, 'sh0', pos[0], imps[0], taken, base, rsv)
+            sh2 = Reader(rnd, 'sh1', pos[0], None, taken, base, rsv)
+            sh2.var, sh2.val, sh2.tok, sh2.sel = sh.var, sh.val, sh.tok, sh.sel
+            sh2.main = 'let l = import "sh0_lib.ucg";\nlet r = [l.r, %s];\nout json {v = r};\n' % sh.sel
+            sh2.libs = dict(sh.libs)
+            sh2.exp_set, sh2.exp_null, sh2.where = [sh.val, sh.val], [None, None], 'a file imported by two files of the same command line; and a plain let'
+            readers += [sh, sh2]
+            for r in readers:
+                _near(rnd, r, taken)
+            secret = _mk_secret(rnd, taken, base, rsv)
+            rnd.shuffle(readers)
+            names = sorted(set(r.var for r in readers))
+            half = set(rnd.sample(names, len(names) // 2))
+            jobs, meta = [], []
+            for setvars in (half, set(names) - half):
+                for flags in ([], ['--no-strict']):
+                    args = ['build'] + [r.rel() for r in readers]
+                    jobs.append(_job(readers, '.', args, flags, setvars, secret))
+                    meta.append(setvars)
+            results = _run_all(base, jobs)
+            for job, res, setvars in zip(jobs, results, meta):
+                n += len(readers)
+                v = _judge(job, res, readers, setvars, secret, readers)
+                if v is not None:
+                    def remake(keep, job=job, setvars=setvars):
+                        return (_job(keep, '.', ['build'] + [k.rel() for k in keep], job['flags'], setvars, secret), keep, setvars, secret)
+                    return _report('env_positions', bound, n, base, job, res, v, 'files named on the command line', remake, readers[0])
+    finally:
+        shutil.rmtree(base, ignore_errors=True)
+    return dict(name='env_positions', bound=bound, cases=n, status='ok')
+
+
+def _tree(rnd, pos, imps, taken, base, rsv, test=False, simple=True):
+    """8 reading files in proj/, proj/<d1>/, proj/<d1>/<d2>/ and proj/<e1>/ (two per directory), positions / import flavours at random"""
+    d1, d2, e1 = rnd.choice(['s1', 'conf', 'a-b', 'x_y']), rnd.choice(['s2', 'deep', 'k8s']), rnd.choice(['t1', 'other', 'z'])
+    dirs = ['proj', 'proj', 'proj/' + d1, 'proj/' + d1, 'proj/%s/%s' % (d1, d2), 'proj/%s/%s' % (d1, d2), 'proj/' + e1, 'proj/' + e1]
+    well = [p for p in pos if p[3] != ANY]
+    easy = [p for p in pos if p[0] in ('let', 'function body', 'module body', 'map callback (list)', 'filter predicate (list)', 'select default', 'copy expression field')]
+    readers = []
+    for i, d in enumerate(dirs):
+        p = rnd.choice(easy if simple else (well if test else pos))
+        imp = rnd.choice(imps) if rnd.random() < (0.25 if simple else 0.4) else None
+        r = Reader(rnd, '%s%d' % (rnd.choice('abcdefgh'), i), p, imp, taken, base, rsv, plain=test, test=(('set', 'unset')[i % 2] if test else None))
+        r.dir = d
+        _near(rnd, r, taken)
+        readers.append(r)
+    return readers
+
+
+QUICK_ROUTES = [['recursive, directory named'],
+                ['recursive, no input (current directory)', 'no input (current directory)'],
+                ['recursive, `.`', 'recursive, absolute directory', 'recursive, sub-directory named', 'recursive, sub-directory relative to the current directory'],
+                ['directory named', 'directory named with a trailing slash', 'sub-directory named'],
+                ['every file named, relative and absolute mixed'],
+                ['every file named, relative', 'every file named, absolute', 'every file named, relative to a sub-directory', 'every file named, with ./ and ../ segments', 'every file named, rotated by 1',
+                 'every file named, rotated by 2', 'every file named, rotated by 3'],
+                ['recursive, a directory, a file and another directory', 'a file, then a directory', 'one file named', 'one file named, absolute']]
+
+
+def standin_env_routes(tier, seed):
+    """dimension (b): every CLI route of `ucg build` and `ucg test` to files in and below a directory"""
+    rnd = random.Random(seed * 104729 + 18)
+    rsv = reserved()
+    pos, imps = _positions(), _imports()
+    thorough = tier == 'thorough'
+    rounds = 1 if not thorough else 2
+    all_routes = [x[0] for x in routes('build', _tree(random.Random(0), pos, imps, [], '', rsv), random.Random(0), None)]
+    bound = ('%d tree(s) proj/, proj/D1/, proj/D1/D2/, proj/E1/ with two reading files each (one variable per file; position of the read and import flavour at random, see env_positions), built over %s: %s; '
+             'per route strict and --no-strict (flag in front of the sub-command) with one variable of every directory set and the other unset%s; '
+             'the same for `ucg test` on trees of *_test.ucg files whose assertion states the expected value (set variable: its value; unset: what NULL gives), routes: %s, '
+             'plus a strict run over the files that read set variables only'
+             % (rounds, 'every route' if thorough else 'one route of each of %d groups' % len(QUICK_ROUTES), ', '.join(all_routes), ' and the other way round' if thorough else '',
+                'all' if thorough else '4 at random'))
+    base = tempfile.mkdtemp(prefix='verif_c18r_')
+    n = 0
+    try:
+        for rd in range(rounds):
+            # ---- ucg build
+            taken = []
+            readers = _tree(rnd, pos, imps, taken, base, rsv, simple=not thorough or rd == 0)
+            secret = _mk_secret(rnd, taken, base, rsv)
+            a_set = set(r.var for i, r in enumerate(readers) if i % 2 == (rd % 2))
+            b_set = set(r.var for r in readers) - a_set
+            which = None if thorough else set(rnd.choice(g) for g in QUICK_ROUTES)
+            jobs, meta = [], []
+            for rid, cwd, args, reached in routes('build', readers, rnd, which):
+                for setvars in ((a_set, b_set) if thorough else (a_set,)):
+                    for flags in ([], ['--no-strict']):
+                        jobs.append(_job(readers, cwd, args, flags, setvars, secret))
+                        meta.append((rid, reached, setvars, cwd, args))
+            # ---- ucg test: a tree of test files; the files reading set variables alone must pass in strict mode
+            ttaken = []
+            treaders = _tree(rnd, pos, imps, ttaken, base, rsv, test=True, simple=not thorough)
+            tsecret = _mk_secret(rnd, ttaken, base, rsv)
+            tset = set(r.var for r in treaders if r.test == 'set')
+            twhich = None if thorough else set([rnd.choice(QUICK_ROUTES[0] + QUICK_ROUTES[2]), rnd.choice(QUICK_ROUTES[1]), rnd.choice(QUICK_ROUTES[3] + QUICK_ROUTES[6]), rnd.choice(QUICK_ROUTES[4] + QUICK_ROUTES[5])])
+            for rid, cwd, args, reached in routes('test', treaders, rnd, twhich):
+                for flags in ([], ['--no-strict']):
+                    jobs.append(_job(treaders, cwd, args, flags, tset, tsecret))
+                    meta.append((rid, reached, tset, cwd, args))
+            onlyset = [r for r in treaders if r.test == 'set']
+            for rid, cwd, args, reached in routes('test', onlyset, rnd, None if thorough else set([rnd.choice(QUICK_ROUTES[0] + QUICK_ROUTES[1] + QUICK_ROUTES[2])])):
+                jobs.append(_job(onlyset, cwd, args, [], tset, tsecret))
+                meta.append((rid + ' (only the files that read set variables)', reached, tset, cwd, args))
+            results = _run_all(base, jobs)
+            for job, res, (rid, reached, setvars, cwd, args) in zip(jobs, results, meta):
+                n += max(1, len(reached))
+                if not reached:
+                    continue
+                sec = tsecret if reached[0].test else secret
+                allr = treaders if reached[0].test else readers
+                v = _judge(job, res, reached, setvars, sec, allr)
+                if v is not None:
+                    def remake(keep, job=job, setvars=setvars, sec=sec, reached=reached):
+                        # the same command on a tree that holds only these files (and what they import); arguments naming files / directories that are gone are dropped
+                        files = {}
+                        for k in keep:
+                            files.update(k.files())
+                        a2 = []
+                        for a in job['args'][1:]:
+                            rel = os.path.normpath(a[len('@ROOT@/'):] if a.startswith('@ROOT@/') else os.path.join(job['cwd'], a))
+                            if a.startswith('-') or (any(rel == k.rel() for k in keep) if a.endswith('.ucg') else (rel == '.' or any(f.startswith(rel + '/') for f in files))):
+                                a2.append(a)
+                        return (_job(keep, job['cwd'], job['args'][:1] + a2, job['flags'], setvars, sec), [k for k in keep if k in reached], setvars, sec)
+                    return _report('env_routes', bound, n, base, job, res, v, '`ucg %s`: %s' % ('test' if reached[0].test else 'build', rid), remake, reached[0])
+    finally:
+        shutil.rmtree(base, ignore_errors=True)
+    return dict(name='env_routes', bound=bound, cases=n, status='ok')
+
+
+STANDINS = [standin_env_random, standin_env_positions, standin_env_routes]
